@@ -258,7 +258,9 @@ fn check_resolvers(case: &mut Case, program: &Program, r: &RefT, detail: &Value)
     };
     let s = r.s;
     let expected: BTreeSet<String> = s.order.iter().filter(|n| s.is_composite(n)).cloned().collect();
-    let got: BTreeSet<String> = entries.iter().map(|p| p.key.clone()).collect();
+    // the introspection meta types (`__Schema`, `__Type`, ...) that an introspection result lists are part of
+    // every schema; the statement speaks about the types the schema defines, so their entries are not compared
+    let got: BTreeSet<String> = entries.iter().map(|p| p.key.clone()).filter(|k| !k.starts_with("__")).collect();
     if expected != got {
         return Err(Failure::new(
             "resolvers-keys",
@@ -268,6 +270,9 @@ fn check_resolvers(case: &mut Case, program: &Program, r: &RefT, detail: &Value)
     }
     let env = tsmini::Env::root(scope.clone());
     for e in entries {
+        if e.key.starts_with("__") {
+            continue;
+        }
         let def = &s.types[&e.key];
         let Ty::Obj(fields) = &e.ty else {
             return Err(Failure::new("resolvers-entry-shape", format!("entry {} is not an object type", e.key), detail.clone()));
@@ -439,7 +444,10 @@ fn case_fn(case: &mut Case) -> CaseResult {
             let _ = case.allow("description_with_comment_close");
         }
     }
-    let mut cfg = ScalarCfg::generate(&mut case.ch, &gs.schema, true);
+    // a quarter of the cases take the introspection route (no directive applications exist there, so every
+    // scalar type comes from the configuration)
+    let via_json = case.ch.chance(1, 4);
+    let mut cfg = ScalarCfg::generate(&mut case.ch, &gs.schema, !via_json);
     // known finding: a renamed (clashing) object inside an interface/union union
     if case.is_excluded("renamed_type_in_abstract") {
         let bag = bag_of_identifiers(&cfg, &gs.schema);
@@ -465,24 +473,58 @@ fn case_fn(case: &mut Case) -> CaseResult {
     }
     let allow_undefined = case.ch.flip();
     let runtime = case.ch.chance(1, 4);
-    let schema_sdl = canon_ts(&sdl_with_scalar_directives(&gs.doc, &cfg));
+    let sdl_doc = sdl_with_scalar_directives(&gs.doc, &cfg);
+    // half of the SDL schemas are written as definitions plus extensions over one to four files
+    let schema_texts: Vec<String> = if !via_json && case.ch.flip() {
+        case.label("schema-with-extensions");
+        split_into_extensions(&mut case.ch, &sdl_doc).iter().filter(|f| !f.is_empty()).map(|f| canon_ts(f)).collect()
+    } else {
+        vec![canon_ts(&sdl_doc)]
+    };
+    let schema_sdl = schema_texts.join("\n# ---- next file\n");
     let detail0 = json!({"schema": schema_sdl});
-    let sfiles = vec![(PathBuf::from("/p/schema.graphql"), schema_sdl.clone())];
+    let sfiles: Vec<(PathBuf, String)> = schema_texts.iter().enumerate().map(|(i, t)| (PathBuf::from(format!("/p/schema{i}.graphql")), t.clone())).collect();
     let ss = schema_stage(&sfiles, &detail0)?;
     if !ss.ok() {
         let d = ss.all_diags();
         return Err(Failure::new(format!("precondition:schema-rejected:{}", d[0].kind), format!("{:?}", d[0]), detail0));
     }
-    let sdoc = ss.doc.as_ref().unwrap();
+    let js;
+    let mut js_text: Option<String> = None;
+    let ischema;
+    let iast;
+    let mut sdoc = ss.doc.as_ref().unwrap();
+    if via_json {
+        case.label("schema-via-introspection-json");
+        let io = crate::introspect::IntrospectOpts { meta_types: case.ch.flip(), absent_optionals: case.ch.flip(), shuffle: case.ch.flip() };
+        js = crate::introspect::introspect(&gs.schema, &io, Some(&mut case.ch));
+        js_text = Some(js.clone());
+        ischema = schema_via_introspection(&js, &detail0)?;
+        iast = guard(|| nitrogql_semantics::type_system_to_ast(&ischema)).map_err(|p| panic_failure("type_system_to_ast", &p, detail0.clone()))?;
+        sdoc = &iast;
+    }
     let scfg = SchemaGenConfig { scalar_types: cfg.to_nitrogql_map(), allow_undefined_as_optional_input: allow_undefined, emit_schema_runtime: runtime };
-    let schema_dts = match gen_schema_dts(sdoc, &scfg, None, &detail0)? {
+    let mut schema_dts = match gen_schema_dts(sdoc, &scfg, None, &detail0)? {
         Ok(b) => b.buffer,
         Err(e) => return Err(Failure::new("schema-printer-error", e, detail0)),
     };
-    let resolvers_dts = match gen_resolvers_dts(sdoc, "./schema", None, &detail0)? {
+    let mut resolvers_dts = match gen_resolvers_dts(sdoc, "./schema", None, &detail0)? {
         Ok(b) => b.buffer,
         Err(e) => return Err(Failure::new("resolvers-printer-error", e, detail0)),
     };
+    // one case in forty: the files are the ones the built CLI leaves in a directory in which `generate` already ran
+    // with other options
+    if std::path::Path::new(crate::cli::CLI_BIN).exists() && case.ch.chance(1, 40) {
+        case.label("declarations-from-cli-after-config-change");
+        let files: Vec<(String, String)> = if via_json {
+            vec![("schema.json".to_string(), js_text.clone().unwrap_or_default())]
+        } else {
+            schema_texts.iter().enumerate().map(|(i, t)| (format!("s{i}.graphqls"), t.clone())).collect()
+        };
+        let (a, _, c) = cli_generate_after_earlier_run(&files, "query CliQ { __typename }\n", &scfg, &other_schema_gen_config(&scfg), &detail0)?;
+        schema_dts = a;
+        resolvers_dts = c;
+    }
     let detail = json!({"schema": schema_sdl, "schema_dts": schema_dts, "resolvers_dts": resolvers_dts, "allowUndefinedAsOptionalInput": allow_undefined,
         "scalars": cfg.map.iter().map(|(k, v)| (k.clone(), format!("{v:?}"))).collect::<BTreeMap<_, _>>()});
     let mut program = Program::new();
